@@ -132,3 +132,36 @@ def _(c):
     c.ensures("C17.containment-sound", lambda f: containment_sound(f, G.circle_contains), props=("C17", "C12"))
     c.result("bool")
     c.use_modular()
+
+
+# ------------------------------------------------------------------------------------------ toDict (C13 payloads)
+@contract("CommonMixin.CommonMixin.toDict")
+def _(c):
+    """The dictionary sent to listeners / returned by GET for a region: exactly the instance attributes (id and
+    coordinates, unchanged) plus 'type' = the class name.  (The region-list model's toDict() is this function's
+    summary; here the real function is executed on both region classes.)"""
+    def pre(b):
+        k = b.choose(2, "region class")
+        reg = mk_rect(b, "r") if k == 0 else mk_circle(b, "c")
+        return {"self": reg, "args": {}, "ghost": {"cls": ["RectangularRegion", "CircularRegion"][k]}}
+    c.pre(pre)
+    c.modifies()
+
+    def post(f):
+        d = f.result
+        d = d if isinstance(d, dict) else getattr(d, "d", None)
+        if d is None:
+            return False
+        obj = f.self
+        fields = dict(vars(obj)) if getattr(f, "native", False) else dict(obj.fields)
+        if set(d.keys()) != set(fields.keys()) | {"type"}:
+            return False
+        conds = [d["type"] == f.g["cls"]]
+        for k, v in fields.items():
+            got = d[k]
+            if isinstance(v, str) or isinstance(got, str) or (ops.is_sym(v) and str(v.sort()) == "String"):
+                conds.append(ops.str_eq(got, v))
+            else:
+                conds.append(eq(got, v))
+        return And(*conds)
+    c.ensures("C13.region-dictionary-is-the-region", post, props=("C13", "C12", "C17"))
